@@ -95,7 +95,21 @@ var nonNums = []string{"", "abc", "z", "12z", "z12", "1z2", "-", "--", "#5", "5%
 func genNonNum(r *run.Rand) string { return nonNums[r.Intn(len(nonNums))] }
 
 // notations the documentation does not define (never judged, only counted)
-var greyNums = []string{"+5", "007", " 5", "5 ", "1e3", "0x10", "1_000", "inf", "NaN", ".5", "5.", "1e-2", "99999999999999999999999", "-00", "1.0e1"}
+var greyNums = []string{"+5", "+010", " 5", "5 ", "1e3", "0x10", "0x1f", "0b101", "0o17", "1_000", "inf", "NaN", ".5", "5.", "1e-2", "99999999999999999999999", "007.5", "1.0e1"}
+
+// zero-padded decimal integers: they denote their decimal value (never octal, never an error)
+var paddedInts = []string{"00", "01", "02", "03", "04", "05", "06", "07", "08", "09", "010", "011", "012", "007", "0100", "-010",
+	"0000", "-09", "-08", "-007", "000123", "0777", "-0777", "00000000000000000019", "0644", "08080", "-00", "0009", "01000", "0012345678"}
+
+// pad writes an integer with 1..4 leading zeros
+func pad(r *run.Rand, v int64) string {
+	s := itoa(v)
+	z := strings.Repeat("0", r.Range(1, 4))
+	if strings.HasPrefix(s, "-") {
+		return "-" + z + s[1:]
+	}
+	return z + s
+}
 
 // canonical decimal: optional '-', integer part without leading zeros, optional fraction
 func genDec(r *run.Rand) string {
@@ -152,6 +166,15 @@ func numOr(r *run.Rand, s string) string {
 		return genNonNum(r)
 	case 3:
 		return greyNums[r.Intn(len(greyNums))]
+	case 4, 5:
+		return paddedInts[r.Intn(len(paddedInts))]
+	case 6:
+		if reInt.MatchString(s) && len(s) < 30 {
+			if s[0] == '-' {
+				return "-" + strings.Repeat("0", r.Range(1, 4)) + s[1:]
+			}
+			return strings.Repeat("0", r.Range(1, 4)) + s
+		}
 	}
 	return s
 }
@@ -814,6 +837,9 @@ func isnumArgs(r *run.Rand) []string {
 	case 2:
 		return []string{genNonNum(r)}
 	case 3:
+		if r.Bool() {
+			return []string{paddedInts[r.Intn(len(paddedInts))]}
+		}
 		return []string{greyNums[r.Intn(len(greyNums))]}
 	}
 	return []string{genStr(r)}
